@@ -512,6 +512,45 @@ def arch_hostile_h(ctx, families=None, mean_units=None):
     return MolAst([s], arch="hostile_h")
 
 
+def arch_twinends(ctx, families=None, mean_units=None):
+    """two (or three) end groups of ONE stochastic object that are the same molecule written in another atom order (`[>]CO` and `[<]OC`): whatever
+    the library keeps per fragment must be keyed by the written token, because descriptor atom indices follow the written order"""
+    r = ctx.rng
+    u = ctx.unit([ctx.lt(), ctx.gt()])
+    pool = [f for f in ctx.pool1 if f in TWIN and TWIN[f] in ctx.pool1]
+    for _ in range(200):
+        a = r.choice(pool)
+        try:
+            ends = [build_token(r, a, [ctx.lt()], "any"), build_token(r, TWIN[a], [ctx.gt()], "any")]
+            if r.random() < 0.4:
+                ends.append(build_token(r, r.choice([a, TWIN[a]]), [r.choice([ctx.lt, ctx.gt])(weight=ctx.weight())], "any"))
+            break
+        except ValueError:
+            continue
+    else:
+        raise ValueError("no twin pair fits")
+    ctx.used += [a, TWIN[a]]
+    r.shuffle(ends)
+    s = StochAst(D(""), D(""), [u], ends, _dist_for(ctx, [u], mean_units or r.choice([1.5, 3]), families=families))
+    return MolAst([s], arch="twinends")
+
+
+def arch_initiator(ctx, families=None, mean_units=None):
+    """a chain that can only START at one place: a repeat unit whose descriptors are all outgoing and carry weight 0 (nothing ever attaches it to a
+    growing chain), written AFTER the ordinary units -- a one-descriptor initiator or a 2-3 arm core (the SI's one-core-per-molecule idiom).  The
+    atoms of the first written token are then not a start of the stochastic atom graph"""
+    r = ctx.rng
+    units = [ctx.unit([ctx.lt(), ctx.gt()]) for _ in range(r.choice([1, 1, 2]))]
+    arms = r.choice([1, 1, 2, 3])
+    init = ctx.unit([ctx.gt(weight=0.0) for _ in range(arms)], ctx.pool1 if arms == 1 else None)
+    units.insert(r.randint(1, len(units)), init)
+    ends = [ctx.end(ctx.lt())]
+    if r.random() < 0.4:
+        ends.append(ctx.end(ctx.lt(weight=ctx.weight())))
+    s = StochAst(D(""), D(""), units, ends, _dist_for(ctx, units[:1], mean_units or r.choice([2, 3, 5]), families=families))
+    return MolAst([s], arch="initiator")
+
+
 def arch_stopper(ctx, families=None, mean_units=None):
     """(14) a one-descriptor "chain stopper" among the repeat units: growth can run out of open descriptors before the target is reached"""
     r = ctx.rng
